@@ -213,6 +213,7 @@ func runC15(c *kit.Ctx) {
 
 	// ---- R2 ---------------------------------------------------------------
 	decompressorRejectsOnlyMalformed(c)
+	receiveRejectsOnlyMalformed(c)
 
 	c.StartRule("R2", "every reader error is checked and returned", 5)
 	sendPathSharesNoMemory(c)
